@@ -104,7 +104,11 @@ def run_entry(eng, func, margins=('none', 'some'), want_states=True, self_screen
                 args = []
             first = 2 if has_self else 1
             for j, c in enumerate(combo):
-                args.append(build_arg(eng, st, c[1], body.local_name(first + j)))
+                a = build_arg(eng, st, c[1], body.local_name(first + j))
+                args.append(a)
+                st.vn[('entry-arg', j)] = a
+            er.combo = combo
+            er.margins = mg
             eng.entry_name = '%s [%s]' % (func, label)
             t0 = time.time()
             s0 = eng.total_steps
